@@ -6,10 +6,13 @@ Oracle for the `suppa-runs` suite: the multi-objective explorer model composed w
 model (the real explorer is run over the real catchment model with scripted random sources).
 
   (load phase as in Driver.Catchment)
-  start <product|averaged> <T> <coolingFactor> <minRate:nat> <rtbFactor> <initialStep:nat> <curBits> <potBits>
-        (floats as bit patterns)                          -> ok <state>
-  iter <u> <pick> <k> <k diffs> <draws…>                  -> <res> <desirable> <moved> <forced> <returned> <prob|-> <state>
-  cool                                                    -> <temperature bits>
+  start <product|averaged> <T> <coolingFactor> <minRate:nat> <rtbFactor> <initialStep:nat> <curBits> <potBits> [cnd]
+        (floats as bit patterns; `cnd` = CheckNonDominance is on)   -> ok <state>
+  iter <u> <pick> <draws…>        -> <res> <desirable> <moved> <forced> <returned> <prob|-> <k> <k diffs> <state>
+                                     (`panic` when the model says the iteration panics)
+  cool                            -> <temperature bits>
+The per-objective changes (`VariableDifferences`) are NOT an input: the model computes them from its own
+candidate and current values and prints them (`~b…`, compared with Go's to relative 1e-9).
 state = cd=<countdown> last=<lastReturned> it=<iter> cur=<bits> <six totals> arch=<len> <hash>
 -/
 namespace Driver.Suppa
@@ -19,6 +22,7 @@ def floatArith : Arith Float where
   one := 1
   zero := 0
   add := (· + ·)
+  sub := (· - ·)
   mul := (· * ·)
   div := (· / ·)
   neg := fun x => -x
@@ -27,6 +31,9 @@ def floatArith : Arith Float where
   max := fun a b => if a > b then a else b
   gt := fun a b => a > b
   ofNat := Nat.toFloat
+  -- numerator and denominator of a grid value are exact in binary64 (< 2^53), so the correctly rounded
+  -- quotient is the binary64 nearest to the decimal: what Go's RoundFloat (math.Round(x·10^p)/10^p) holds
+  ofRat := fun q => Float.ofInt q.num / Float.ofNat q.den
   trunc := fun x => x.toUInt64.toNat
 
 structure St where
@@ -60,8 +67,26 @@ def hex16 (n : UInt64) : String :=
   let ds := (List.range 16).map fun i => ((n >>> (UInt64.ofNat (4 * (15 - i)))) &&& 0xf).toNat
   String.ofList (ds.map fun d => if d < 10 then Char.ofNat (48 + d) else Char.ofNat (87 + d))
 
+/-- the output line of one iteration (shared with the toy driver) -/
+def outStr (o : Out Float) (stateStr : String) : String :=
+  if o.selfCheckPanic || o.emptyPickPanic then "panic" else
+  let ps := match o.prob with
+    | some p => s!"~b{hex16 p.toBits}"
+    | none => "-"
+  let ds := " ".intercalate (o.diffs.map fun d => s!"~b{hex16 d.toBits}")
+  s!"{resStr o.result} {boolStr o.desirable} {boolStr o.moved} {boolStr o.forced} {boolStr o.returned} {ps} {o.diffs.length} {ds} {stateStr}"
+
+/-- draw within 1e-9 (relative) of the probability: math.Exp and libm exp may differ in the last place -/
+def nearDraw (o : Out Float) (u : Float) : Bool :=
+  match o.prob with
+  | some p => decide (Float.abs (p - u) < 1e-9 * (if p > u then p else u))
+  | none => false
+
 def step (st : St) (line : String) : St × String :=
   let ws := words line
+  let (ws, cnd) := match ws.getLast? with
+    | some "cnd" => (ws.dropLast, true)
+    | _ => (ws, false)
   match ws with
   | ["start", kind, t, cf, minRate, factor, step0, cur, pot] =>
     match parseF t, parseF cf, minRate.toNat?, parseF factor, step0.toNat?,
@@ -72,26 +97,20 @@ def step (st : St) (line : String) : St × String :=
       let e : Ex Float State :=
         { current := setAll D base cb, potential := setAll D base pb, archive := [], temperature := t,
           countdown := BitVec.ofNat 64 (floatArith.trunc s0.toFloat), step := s0.toFloat, iter := 1, lastReturned := 0 }
-      let P : Params Float := { kind := if kind = "averaged" then .averaged else .product, minRate := mr.toFloat, factor := f }
+      let P : Params Float := { kind := if kind = "averaged" then .averaged else .product, minRate := mr.toFloat, factor := f,
+                                checkNonDominance := cnd }
       ({ st with ex := some e, P := P, coolFactor := cf }, s!"ok {exStr e}")
     | _, _, _, _, _, _, _ => (st, "bad-op")
-  | "iter" :: u :: pick :: k :: rest =>
-    match st.ex, parseF u, pick.toNat?, k.toNat? with
-    | some e, some u, some pick, some k =>
-      match (rest.take k).mapM parseF, (rest.drop k).mapM String.toNat? with
-      | some diffs, some draws =>
-        let (e', o) := iterate floatArith (modelOps st.c.D) st.P e { draws := draws, diffs := diffs, u := u, pick := pick }
-        let near : Bool := match o.prob with
-          | some p => decide (Float.abs (p - u) < 1e-9 * (if p > u then p else u))
-          | none => false
-        if near then ({ st with ex := some e' }, "BOUNDARY") else
-        let ps := match o.prob with
-          | some p => s!"~b{hex16 p.toBits}"
-          | none => "-"
-        ({ st with ex := some e' },
-         s!"{resStr o.result} {boolStr o.desirable} {boolStr o.moved} {boolStr o.forced} {boolStr o.returned} {ps} {exStr e'}")
-      | _, _ => (st, "bad-op")
-    | _, _, _, _ => (st, "bad-op")
+  | "iter" :: u :: pick :: rest =>
+    match st.ex, parseF u, pick.toNat? with
+    | some e, some u, some pick =>
+      match rest.mapM String.toNat? with
+      | some draws =>
+        let (e', o) := iterate floatArith (modelOps st.c.D) st.P e { draws := draws, u := u, pick := pick }
+        if nearDraw o u then ({ st with ex := some e' }, "BOUNDARY") else
+        ({ st with ex := some e' }, outStr o (exStr e'))
+      | _ => (st, "bad-op")
+    | _, _, _ => (st, "bad-op")
   | ["cool"] =>
     match st.ex with
     | some e =>
